@@ -103,6 +103,41 @@ pub fn make(prop: &str, tier: Tier, seed: u64) -> Scenario {
             p.witness_pct = 50; p.w_overlay = 8; p.w_rollback = 6; p.w_reopen = 10;
             gen_history_cfg(prop, seed >> 3, seed ^ 0x13C0_F16, p, checks_all())
         }
+        "C16" | "C17" | "C19" => {
+            let mut p = Profile::default();
+            big(&mut r, &mut p, tier);
+            p.w_overlay = 10; p.w_rollback = 8; p.w_reopen = 10; p.witness_pct = 0; p.session_proves = 1; p.session_reads = 1;
+            p.big_pct = p.big_pct.max(10);
+            p.small_ht = r.chance(1, 4) && p.pool.1 <= 60;
+            p.small_segments = r.chance(1, 2);
+            if prop == "C19" && r.chance(1, 3) { p.steps = (6, 16); p.pool = (20, 120); p.batch = (10, 120); }
+            let mut c = Checks::default();
+            c.root = true;
+            c.values = prop != "C17";
+            c.decode = prop == "C16";
+            c.accounting = prop == "C19";
+            c.intact = prop == "C17";
+            let mut s = gen_history(prop, seed, p, c);
+            if prop == "C19" && r.chance(1, 2) {
+                // fill / overwrite / empty cycles: append steps that delete everything written so far
+                // and refill, values flipping between in-leaf and overflow form
+                let keys: std::collections::BTreeSet<K> = s.steps.iter().flat_map(|st| match st { Step::Commit { batch, .. } => batch.items.iter().map(|x| x.0).collect::<Vec<_>>(), _ => vec![] }).collect();
+                let keys: Vec<K> = keys.into_iter().collect();
+                if !keys.is_empty() {
+                    let cycles = r.range(1, 3);
+                    let mut stamp = 1_000_000u32;
+                    for cyc in 0..cycles {
+                        let del = Batch { items: keys.iter().map(|k| (*k, Act::Write(None))).collect(), ..Default::default() };
+                        s.steps.push(Step::Commit { batch: del, nonblocking: false });
+                        let fill = Batch { items: keys.iter().map(|k| { stamp += 1; (*k, Act::Write(Some(VSpec { len: if (stamp + cyc as u32) % 3 == 0 { 1400 + (stamp % 7000) } else { 1 + stamp % 1300 }, stamp }))) }).collect(), ..Default::default() };
+                        s.steps.push(Step::Commit { batch: fill, nonblocking: false });
+                    }
+                    let del = Batch { items: keys.iter().map(|k| (*k, Act::Write(None))).collect(), ..Default::default() };
+                    s.steps.push(Step::Commit { batch: del, nonblocking: false });
+                }
+            }
+            s
+        }
         "C03" | "C04" | "C14" => {
             // a short history that builds state (large values, deletions that free pages, a hash
             // table with tombstones, rollback segments), then one target step whose I/O events get
